@@ -5,6 +5,7 @@ pub mod c12;
 pub mod c19;
 pub mod c18;
 pub mod c11;
+pub mod c16;
 
 pub fn run(prop: &str, rng: &mut R, out: &mut Out, extra: &[String]) -> bool {
     let _ = extra;
@@ -15,6 +16,7 @@ pub fn run(prop: &str, rng: &mut R, out: &mut Out, extra: &[String]) -> bool {
         "C19" => c19::run(rng, out),
         "C18" => c18::run(rng, out),
         "C11" => c11::run(rng, out),
+        "C16" => c16::run(rng, out),
         _ => return false,
     }
     true
